@@ -37,7 +37,9 @@ func init() {
 		{"identity", "", "VerifySelfToken"},
 		{"roles", "", "checkPassCode"}, {"roles", "Roles", "NewPassCode"}, {"roles", "Roles", "SetupWithCode"},
 		{"roles", "Roles", "mutate"}, {"roles", "Roles", "setDisabled"}, {"roles", "Roles", "SetPassCodeExpiry"},
-		{"roles", "passCode", "public"},
+		{"roles", "passCode", "public"}, {"roles", "", "subtleStringEq"},
+		{"jwt", "", "encodeSegmentBytes"}, {"identity", "Identity", "Identity"},
+		{"timeutil", "", "NewTimestamp"}, {"timeutil", "Timestamp", "Time"},
 		{"signin/authgate", "", "New"}, {"signin/authgate", "Gate", "CheckToken"}, {"signin/authgate", "Gate", "Token"},
 		{"pisces", "KV", "Mutate"}, {"pisces", "memKV", "mutate"},
 	}
